@@ -486,6 +486,8 @@ def priority(target):
 
 def check(sc):
     """Run one scenario; return None or the failure record."""
+    if sc.get("reactor") == "real" and os.environ.get("VERIF_NO_REAL"):
+        return None   # wall-clock scenarios are skipped when the harness runs as a check's stand-in (no timing flakes)
     bad = Runner(sc).run()
     if not bad:
         return None
